@@ -435,6 +435,7 @@ func firstN(s []string, n int) []string {
 // redirectTargets maps harness stub function names to the real functions they replace.
 var redirectTargets = map[string]string{
 	"VerifStub_util_FetchBuilderClient": "github.com/attestantio/vouch/util.FetchBuilderClient",
+	"VerifStub_json_Unmarshal":          "encoding/json.Unmarshal",
 }
 
 func sortedKeys(m map[string]int) []string {
